@@ -2,4 +2,4 @@ From Coq Require Import ZArith List.
 From Coq Require Extraction ExtrOcamlBasic.
 From Nice Require Import Timer.TimerModel.
 Extraction Language OCaml.
-Extraction "../ocaml/gen/timer_model.ml" timer_start remainder refresh.
+Extraction "../ocaml/gen/timer_model.ml" timer_start timer_start_reliable remainder refresh.
